@@ -210,6 +210,75 @@ def record_random(ctx, rng, count, nmax):
     return ev
 
 
+def run_object_history(start_f2, hist):
+    """drive a real PauliOperator object along a history of views / inverse / products; log every observation"""
+    from numqi.gate import PauliOperator as PO
+    li = lambda a: [int(x) for x in a]
+    cur = PO.from_F2(np.array(start_f2, dtype=np.uint8))
+    ev = [dict(op='new', f2=li(start_f2))]
+    sgn = {(1, 0): 0, (0, 1): 1, (-1, 0): 2, (0, -1): 3}
+
+    def view(v):
+        if v == 'F2':
+            return li(cur.F2)
+        if v == 'str':
+            return [LET.index(ch) for ch in cur.str_]
+        if v == 'sign':
+            z = complex(cur.sign)
+            return sgn.get((int(round(z.real)), int(round(z.imag))), -1)
+        m = cur.full_matrix
+        return [[[int(round(z.real)), int(round(z.imag))] for z in row] for row in m]
+    try:
+        for h in hist:
+            if h[0] == 'view':
+                ev.append(dict(op='view', v=h[1], val=view(h[1])))
+            elif h[0] == 'inverse':
+                cur = cur.inverse()
+                ev.append(dict(op='inverse', f2=li(cur.F2)))
+            else:
+                cur = cur @ PO.from_F2(np.array(h[1], dtype=np.uint8))
+                ev.append(dict(op='mul', q=li(h[1]), f2=li(cur.F2)))
+        # final observation of every view of the last object
+        for v in ('sign', 'str', 'dense', 'F2'):
+            ev.append(dict(op='view', v=v, val=view(v)))
+    except Exception as ex:
+        ev.append(dict(op='exception', error=repr(ex)))
+    return ev
+
+
+def object_histories(ctx):
+    quick = ctx.tier == 'quick'
+    r = tlc.run('pauli/MC_PauliObject.tla', 'pauli/MC_PauliObject_%s.cfg' % ('q' if quick else 't'), dump=True, timeout=3000)
+    ctx.add_model('MC_PauliObject(%s)' % ('N=1,len<=4' if quick else 'N=2,len<=4'), r)
+    hs = [(st['start'], st['hist']) for st in tlc.parse_dump(r) if st['hist']]
+    traces = []
+    keep = []
+    for start, hist in hs:
+        f2 = [start['ph'] >> 1, start['ph'] & 1] + start['x'] + start['z']
+        t = run_object_history(f2, hist)
+        if t[-1]['op'] == 'exception':
+            ctx.violation('C08:PauliOperator:exception-in-history', t[-1]['error'], dict(start=f2, history=hist))
+            continue
+        traces.append(t)
+        keep.append((f2, hist))
+        ctx.case(('objhist', tuple(f2), repr(hist)))
+    acc, rej, results = tlc.validate_events('pauli/Trace_PauliObject.tla', 'pauli/Trace_PauliObject.cfg', traces, shards=16)
+    for r in results:
+        ctx.states += r.distinct
+        ctx.transitions += r.generated
+    ctx.models.append(dict(model='Trace_PauliObject', traces=len(traces), accepted=acc, rejected=len(rej), exhaustive=True))
+    ctx.traces += len(traces)
+    for gi, info in rej:
+        f2, hist = keep[gi]
+        t = traces[gi]
+        e = t[info[1] - 1]
+        ctx.violation('C08:PauliOperator:%s-after-history' % (e['op'] + ('.' + e['v'] if e['op'] == 'view' else '')),
+                      'observation of a PauliOperator object disagrees with the element it denotes (event %d of the history)' % info[1],
+                      dict(start=f2, history=hist, trace=t, event=info[1]))
+    if traces:
+        ctx.sample(dict(kind='object-history', start=keep[len(keep) // 3][0], history=keep[len(keep) // 3][1]))
+
+
 def run(ctx):
     quick = ctx.tier == 'quick'
     ctx.rule = ('exhaustive: every phased Pauli operator (state of MC_Pauli) and every ordered pair (row of the '
@@ -226,6 +295,7 @@ def run(ctx):
         states = list(tlc.parse_dump(r))
         replay_states(ctx, n, states)
         ctx.traces += len(states)
+    object_histories(ctx)
     rng = random.Random(ctx.seed)
     ev = record_random(ctx, rng, 400 if quick else 4000, 12)
     for i, e in enumerate(ev):
